@@ -213,6 +213,10 @@ impl World {
 
 /// Context-set specifications (see DESIGN.md 5.2).  Returns the set and, for the model, its
 /// truth table over pn (None when the set is malformed: depends on spare variables).
+pub fn make_context_set_for_shell(w: &World, spec: &str) -> Result<GraphColoredVertices, String> {
+    make_context_set(w, spec).map(|x| x.0)
+}
+
 fn make_context_set(w: &World, spec: &str) -> Result<(GraphColoredVertices, Option<String>), String> {
     let unit_bits: Vec<bool> = bits_of(w.graph.unit_colored_vertices().as_bdd(), &w.order_pn)
         .chars()
